@@ -13,7 +13,7 @@ use common::jitter::Jitter;
 use common::{ticket, Rng};
 use parking_lot::Mutex;
 use swimos_api::address::RelativeAddress;
-use swimos_runtime::downlink::failure::AlwaysAbortStrategy;
+use swimos_runtime::downlink::failure::{AlwaysAbortStrategy, AlwaysIgnoreStrategy, ReportStrategy};
 use swimos_runtime::downlink::{
     AttachAction, DownlinkOptions, DownlinkRuntimeConfig, IdentifiedAddress, MapDownlinkRuntime, ValueDownlinkRuntime,
 };
@@ -27,7 +27,7 @@ use crate::peers::{
     consumer_reader, consumer_writer, lane_task, new_ctl, new_lane_log, set_stalled, CmdRec, ConsLog, Gate, LaneKind, LaneLog, LaneOp,
     Note, PacedReader, ReaderEnd, SharedCons, SharedCtl, SharedLane, SharedWriter, WOp, WriterLog, FAST, LANE, NODE,
 };
-use crate::script::{Config, EndKind, Step};
+use crate::script::{Config, EndKind, Step, Strategy};
 
 fn nz(n: usize) -> NonZeroUsize {
     NonZeroUsize::new(n.max(1)).unwrap()
@@ -186,12 +186,24 @@ pub fn run_case(cfg: &Config, script: &[Step], rng: &mut Rng) -> Obs {
                 tokio::spawn(Jitter::new(run, jr, cfg.jitter))
             }
             LaneKind::Map => {
-                let r = MapDownlinkRuntime::new(att_rx, (req_tx, resp_rx), stop_rx, address, config, AlwaysAbortStrategy);
-                let run = async move {
-                    r.run().await;
-                    *re.lock() = Some((ticket(), now_ms()));
-                };
-                tokio::spawn(Jitter::new(run, jr, cfg.jitter))
+                // (one arm runs; each builds the runtime with a `BadFrameStrategy` of a different type)
+                macro_rules! spawn_map {
+                    ($strategy:expr) => {{
+                        let r = MapDownlinkRuntime::new(att_rx, (req_tx, resp_rx), stop_rx, address, config, $strategy);
+                        let run = async move {
+                            r.run().await;
+                            *re.lock() = Some((ticket(), now_ms()));
+                        };
+                        tokio::spawn(Jitter::new(run, jr, cfg.jitter))
+                    }};
+                }
+                match cfg.strategy {
+                    Strategy::Abort => spawn_map!(AlwaysAbortStrategy),
+                    Strategy::ReportAbort => spawn_map!(ReportStrategy::new(AlwaysAbortStrategy)),
+                    Strategy::BoxedReportAbort => spawn_map!(ReportStrategy::new(AlwaysAbortStrategy).boxed()),
+                    Strategy::Ignore => spawn_map!(AlwaysIgnoreStrategy),
+                    Strategy::BoxedReportIgnore => spawn_map!(ReportStrategy::new(AlwaysIgnoreStrategy).boxed()),
+                }
             }
         };
 
@@ -281,6 +293,9 @@ pub fn run_case(cfg: &Config, script: &[Step], rng: &mut Rng) -> Obs {
                     }
                 }
                 Step::LaneApply(ev) => lane_op(LaneOp::Apply(ev.clone())),
+                Step::LaneApplyPadded(ev, pad) => lane_op(LaneOp::ApplyPadded(ev.clone(), *pad)),
+                Step::LaneBadEvent(body) => lane_op(LaneOp::BadEvent(body.clone())),
+                Step::LaneBadEnvelope(how) => lane_op(LaneOp::BadEnvelope(*how)),
                 Step::Stall(c) => {
                     if let Some(l) = live[*c].as_mut() {
                         set_stalled(&l.ctl, true);
@@ -469,7 +484,9 @@ pub fn run_case(cfg: &Config, script: &[Step], rng: &mut Rng) -> Obs {
                 runtime_finished = h.is_finished();
             }
             // (Whether the runtime stops once everybody left is not part of the property: counted.)
-            if !runtime_finished && runtime_alive_at_q && cfg.end != EndKind::AllLeave {
+            // (a lane that has emitted bytes that are not an envelope says nothing afterwards, `unlinked` included)
+            let lane_mute = lane_log.lock().sent.iter().any(|s| matches!(s.kind, crate::peers::SentKind::BadEnvelope(_)));
+            if !runtime_finished && runtime_alive_at_q && cfg.end != EndKind::AllLeave && !(lane_mute && cfg.end == EndKind::LaneUnlinked) {
                 stuck.push(format!("runtime still running after end action {}", cfg.end.name()));
             }
         }
